@@ -22,9 +22,12 @@
   leaves the peer tag as it was before the call, even when its prefix named a well-formed sender.
   `receiveFragment_run_of_prefix`, `receiveFragment_discarded_unbinds`, `receiveFragment_rejected_unbinds`,
   `receiveUnit_rejected_fragment_unbinds` (repaired code, Proofs.Fixes3): a fragment that is for another
-  instance (ignored), does not parse (rejected) or is illegally numbered (discarded) leaves the peer tag,
+  instance (ignored), does not parse (rejected), is illegally numbered or is out of sequence — neither a first
+  piece nor the piece that follows the ones collected (`fragOutOfSequence`) — (discarded) leaves the peer tag,
   the protocol version and the long-term key selected for it exactly as they were before the call —
-  whatever looking at its prefix had committed the conversation to.
+  whatever looking at its prefix had committed the conversation to.  Only a first piece or the next piece of the
+  stream being collected binds: `receiveFragment_out_of_sequence_unbinds` (the out-of-sequence case made
+  explicit: no error, the empty context, nothing bound), `receiveFragment_in_sequence_binds` (Proofs.Fixes4).
   `receiveUnit_unknown_frame`, `receive_unknown_frame`, `receive_unknown_fragCtx` (repaired code, exact;
   Proofs.Fixes4): a message of an unknown type — whose instance tags are never looked at — yields no
   plaintext, no error and nothing to send but the injections that were pending; the log gains
@@ -138,11 +141,11 @@ theorem receiveUnit_invalid_fragment_theirTag : type_of% @Otr.receiveUnit_invali
   @Otr.receiveUnit_invalid_fragment_theirTag
 
 /-- repaired code (exact): `receiveFragment` in terms of the prefix parser; ignored, rejected and discarded
-    fragments all unbind the conversation -/
+    (illegally numbered or out-of-sequence) fragments all unbind the conversation -/
 theorem receiveFragment_run_of_prefix : type_of% @Otr.receiveFragment_run_of_prefix :=
   @Otr.receiveFragment_run_of_prefix
 
-/-- an ignored, unparsable or illegally numbered fragment: version, key choice and peer tag as before the call -/
+/-- an ignored, unparsable, illegally numbered or out-of-sequence fragment (`fragmentDiscarded`): version, key choice and peer tag as before the call -/
 theorem receiveFragment_discarded_unbinds : type_of% @Otr.receiveFragment_discarded_unbinds :=
   @Otr.receiveFragment_discarded_unbinds
 
@@ -172,5 +175,28 @@ theorem receive_unknown_frame (K : Crypto) (msg : Bytes) (s : MState)
 
 /-- in particular the fragments collected so far, the peer tag, the version and all key material are what they were -/
 theorem receive_unknown_fragCtx : type_of% @Otr.receive_unknown_fragCtx := @Otr.receive_unknown_fragCtx
+
+/-- repaired code: a parsed, legally numbered fragment that is neither piece 1 nor the next piece yields the empty context, no error, and leaves version, key choice and peer tag as before the call -/
+theorem receiveFragment_out_of_sequence_unbinds (before : FragCtx) (data : Bytes) (s s1 : MState) (body d : Bytes)
+    (ix l : Nat)
+    (hp : runM (parseFragmentPrefix data) s = .ok (.ok (body, false, true), s1))
+    (hpf : parseFragment body = some (d, ix, l))
+    (hlegal : ¬ (ix = 0 ∨ l = 0 ∨ ix > l))
+    (hfirst : ix ≠ 1) (hnext : ¬ ((before.index + 1) % 65536 = ix ∧ before.len = l)) :
+    runM (receiveFragment before data) s = .ok (.ok FragCtx.empty, unbindState s s1) ∧
+    (unbindState s s1).conv.version = s.conv.version ∧
+    (unbindState s s1).conv.ourCurrentKey = s.conv.ourCurrentKey ∧
+    (unbindState s s1).conv.theirTag = s.conv.theirTag := by
+  first | exact Otr.receiveFragment_out_of_sequence_unbinds | exact @Otr.receiveFragment_out_of_sequence_unbinds | (apply Otr.receiveFragment_out_of_sequence_unbinds <;> assumption) | (intros; apply Otr.receiveFragment_out_of_sequence_unbinds <;> assumption)
+
+/-- … while a first piece or the next piece keeps what looking at its prefix committed the conversation to -/
+theorem receiveFragment_in_sequence_binds (before : FragCtx) (data : Bytes) (s s1 : MState) (body d : Bytes)
+    (ix l : Nat)
+    (hp : runM (parseFragmentPrefix data) s = .ok (.ok (body, false, true), s1))
+    (hpf : parseFragment body = some (d, ix, l))
+    (hlegal : ¬ (ix = 0 ∨ l = 0 ∨ ix > l))
+    (hseq : ix = 1 ∨ ((before.index + 1) % 65536 = ix ∧ before.len = l)) :
+    runM (receiveFragment before data) s = .ok (.ok (fragAccept before d ix l), s1) := by
+  first | exact Otr.receiveFragment_in_sequence_binds | exact @Otr.receiveFragment_in_sequence_binds | (apply Otr.receiveFragment_in_sequence_binds <;> assumption) | (intros; apply Otr.receiveFragment_in_sequence_binds <;> assumption)
 
 end Otr.C15
